@@ -93,7 +93,17 @@ impl<'a> ExpressionEvaluator<'a> {
         self.program().expect_next_token(Token::RightParen)?;
         self.program()
             .push_function_call_onto_stack_and_goto_it(function_name, bindings)?;
-        let value = self.evaluate_expression()?;
+        let value = match self.evaluate_expression() {
+            Ok(value) => value,
+            Err(mut err) => {
+                // Locate the error while we're still in the function body,
+                // then make sure we don't leave its frame on the stack.
+                self.program().populate_error_location(&mut err);
+                self.program()
+                    .pop_function_call_off_stack_and_return_from_it();
+                return Err(err);
+            }
+        };
         self.program()
             .pop_function_call_off_stack_and_return_from_it();
 
